@@ -26,7 +26,12 @@ where
         let mut n = 0;
 
         loop {
-            let src = self.inner.fill_buf()?;
+            // A spurious interrupt is not an error: retry, as `Read::read_to_end` does.
+            let src = match self.inner.fill_buf() {
+                Ok(src) => src,
+                Err(e) if e.kind() == io::ErrorKind::Interrupted => continue,
+                Err(e) => return Err(e),
+            };
 
             if src.is_empty() {
                 return Ok(n);
